@@ -743,6 +743,7 @@ def ref_selectn(rng, i):
     if rng.random() < 0.3 and nlines > 3:
         lines[rng.randrange(nlines - 1)] = ""                 # empty line (not the last one)
         lines[rng.randrange(nlines)] = lines[0]               # duplicate line
+    if lines and lines[-1] == "": lines[-1] = "last"          # a final empty line without newline is no line at all
     text = "\n".join(lines) + ("\n" if lines and rng.random() < 0.85 else "")
     m = min(nlines, rng.choice([0, 1, 2, nlines, max(0, nlines - 1), rng.randrange(0, nlines + 1)]))
     seed = rng.choice([1, 2, 42, 2 ** 31 - 1, rng.randrange(1, 2 ** 31)])
